@@ -224,10 +224,23 @@ def run_on(fb, chk, tag=""):
     f = ch.get("get_vring_base")
     if f:
         m = must_of(fb, f)
+        vals = []
         for bb, t, c in sites(f, name="new"):
             a = m.sym.arg_terms(bb)
-            ok = a[0][0] == "param" and a[0][2] == "index" and "queue_next_avail" in show(a[1])
-            chk.check(ok, "T1", tag + "get_vring_base:result", "returns (index, queue_next_avail())", "returns %s" % [show(x)[:40] for x in a], f.loc(t["line"]))
+            if len(a) == 2:
+                vals.append((a[0], a[1], t["line"]))
+        if not vals:
+            ret = m.sym.local(0)
+            for alt in (ret[2] if ret[0] == "phi" else [ret]):
+                if alt[0] == "agg" and alt[2] == "Ok" and alt[3] and alt[3][0][1][0] == "agg":
+                    d = dict(alt[3][0][1][3])
+                    if "index" in d and "num" in d:
+                        vals.append((d["index"], d["num"], None))
+        if not vals:
+            chk.bad("T1", tag + "get_vring_base:result", "cannot find the reply value of GET_VRING_BASE (neither a constructor call nor a struct literal)", f.loc())
+        for a0, a1, line in vals:
+            ok = peel(a0)[0][0] == "param" and peel(a0)[0][2] == "index" and "queue_next_avail" in show(a1)
+            chk.check(ok, "T1", tag + "get_vring_base:result", "returns (index, queue_next_avail())", "returns %s" % [show(x)[:40] for x in (a0, a1)], f.loc(line))
     # ------------------------------------------------------------------ T2
     for name, f in sorted(ch.items()):
         m = must_of(fb, f)
@@ -293,27 +306,33 @@ def run_on(fb, chk, tag=""):
     if len(adds) == 1 and len(dels) == 1:
         ab, at, ac = adds[0]
         db, dt, dc = dels[0]
-        atoms = rm.atoms_at(ab)
-        ready = any(a[0] == "true" and a[1][0] == "call" and a[1][1] == "ready" for a in atoms)
-        enabled = any(a[0] == "true" and a[1][0] == "call" and a[1][1] == "is_enabled" for a in atoms)
-        chk.check(ready and enabled, "T3", tag + "add", "add under started && enabled",
-                  "the kick descriptor is added to the epoll set with facts started=%s enabled=%s (both required)" % (ready, enabled), reg.loc(at["line"]))
-        # delete unreachable once the false edges of both tests are removed
-        cfg = rm.cfg
-        removed_edges = set()
-        for d in range(len(reg.blocks)):
-            tt = reg.blocks[d]["term"]
-            if tt["k"] != "switch":
+        # path-sensitive: every path that reaches the add has seen started && enabled true; every path that reaches the
+        # delete has seen one of them false (however the test is spelled: nested ifs, `a && b` in a local, a bool parameter
+        # of an inlined helper ...)
+        summ_ = Summariser(fb, no_inline=lambda g: True)
+        outs_, _sym = summ_.paths(reg, stop=lambda b_: b_ in (ab, db))
+        add_bad = del_bad = 0
+        n_add = n_del = 0
+        for o in outs_:
+            if o.ret is not None or not o.path:
                 continue
-            term = rm.sym.operand(tt["op"])
-            if term[0] == "call" and term[1] in ("ready", "is_enabled"):
-                for v, tg in zip(tt["vals"], tt["tgts"]):
-                    if v == 0:
-                        removed_edges.add((d, tg))
-        succ2 = [[s for s in ss if (i, s) not in removed_edges] for i, ss in enumerate(cfg.succ)]
-        still = db in cfg.reach(0, succ=succ2)
-        chk.check(not still and len(removed_edges) == 2, "T3", tag + "delete", "delete only when !(started && enabled)",
-                  "the delete is reachable while the ring is started and enabled (or the tests were not found: %d)" % len(removed_edges), reg.loc(dt["line"]))
+            last = o.path[-1]
+            t_ready = any(a[0] == "true" and a[1][0] == "call" and a[1][1] == "ready" for a in o.atoms)
+            t_en = any(a[0] == "true" and a[1][0] == "call" and a[1][1] == "is_enabled" for a in o.atoms)
+            f_ready = any(a[0] == "false" and a[1][0] == "call" and a[1][1] == "ready" for a in o.atoms)
+            f_en = any(a[0] == "false" and a[1][0] == "call" and a[1][1] == "is_enabled" for a in o.atoms)
+            if last == ab:
+                n_add += 1
+                if not (t_ready and t_en):
+                    add_bad += 1
+            elif last == db:
+                n_del += 1
+                if not (f_ready or f_en):
+                    del_bad += 1
+        chk.check(n_add >= 1 and add_bad == 0, "T3", tag + "add", "add under started && enabled (%d paths)" % n_add,
+                  "the kick descriptor is added to the epoll set on %d of %d paths without both facts started and enabled" % (add_bad, n_add), reg.loc(at["line"]))
+        chk.check(n_del >= 1 and del_bad == 0, "T3", tag + "delete", "delete only when !(started && enabled) (%d paths)" % n_del,
+                  "the delete is reachable on %d of %d paths while the ring is started and enabled" % (del_bad, n_del), reg.loc(dt["line"]))
         aa, da = rm.sym.arg_terms(ab), rm.sym.arg_terms(db)
         from vlint.terms import show as sh
         from rules.panics import erase_sites as norm
